@@ -305,6 +305,9 @@ class ForceTorque3D(Block):
         """
         Sets the tracks in the data block.
         """
+        # the new list may be described in terms of this block (e.g. chain(block, more)):
+        # read it completely before the block is emptied
+        values = list(values)
         oldTracks = self._tracks
         self._tracks = []
         try:
